@@ -463,6 +463,7 @@ def ob_ca_import(fns):
         ob.result, ob.reason = "inconclusive", "no Ok path of from_ca_cert_der was reached (vacuous)"
         return ob
     ob.result = "pass"
+    ob.battery, ob.battery_features = ("ca-import", 27), ["x509-parser", "pem"]
     ob.bound_text = (f"<= {N_SAN} general names, <= {N_PERMITTED} permitted / {N_EXCLUDED} excluded subtrees, <= {N_X509EXT} certificate extensions searched for the "
                      "subject key identifier; scenarios: " + "; ".join(f"{n}: {t}" for n, t, _ in scenarios()) + f"; {n_ok} Ok paths")
     return ob
@@ -615,5 +616,6 @@ def ob_from_name(fns):
         ob.result, ob.reason = "inconclusive", "no Ok path of from_name was reached (vacuous)"
         return ob
     ob.result = "pass"
+    ob.battery, ob.battery_features = ("dn-from-name", 58), ["x509-parser", "pem"]
     ob.bound_text = f"names of <= {MAX_RDN} RDNs, arbitrary attribute types (finite sort of 8) and all six string kinds; {n_ok} Ok paths"
     return ob
